@@ -74,6 +74,40 @@ def late_member_part(out, wd, seed):
             out.violation("real-cluster/write-not-visible-on-the-other-node/joined-after-start-up-announcements", dict(info))
         else:
             out.shape("real-cluster/member-joined-after-64s/views-agree")
+            # ---- a long outage of the FIRST member (it has no join address: nothing re-announces it when it comes back) in a cluster in
+            # which every node is past its start-up announcements: after its return both nodes must take each other for alive again
+            # (the liveness pings have to be taken up again), and writes through either node must reach the other one
+            time.sleep(max(0.0, t_join + 66.0 - time.time()))
+            n1.kill()
+            t_down = time.time()
+            time.sleep(36.0)
+            n1.start()
+            info["first_member_down_s"] = round(time.time() - t_down, 1)
+            t_back = time.time()
+            while time.time() - t_back < 30:
+                m = n1.metrics()
+                if m and m.get("current_leader"):
+                    break
+                time.sleep(0.5)
+            else:
+                raise common.Inconclusive("no raft leader within 30 s after the first member came back")
+            time.sleep(20.0)          # 15 s liveness rule + 3 s status tick + slack, counted from the return
+            seen = {1: 0, 2: 0}
+            for i in range(N):
+                n1.post("/nacos/v1/ns/instance", form={"serviceName": "c14back-%d-%d" % (seed, i), "ip": "10.15.1.%d" % i, "port": "80", "ephemeral": "true"}, timeout=5)
+                n2.post("/nacos/v1/ns/instance", form={"serviceName": "c14back-%d-%d" % (seed, i), "ip": "10.15.2.%d" % i, "port": "80", "ephemeral": "true"}, timeout=5)
+            time.sleep(3.0)
+            for i in range(N):
+                r2 = n2.get("/nacos/v1/ns/instance/list", params={"serviceName": "c14back-%d-%d" % (seed, i)}, timeout=5).text()
+                r1 = n1.get("/nacos/v1/ns/instance/list", params={"serviceName": "c14back-%d-%d" % (seed, i)}, timeout=5).text()
+                seen[2] += 1 if "10.15.1.%d" % i in r2 else 0
+                seen[1] += 1 if "10.15.2.%d" % i in r1 else 0
+                out.evaluations += 2
+            info["after_outage_written_at_node1_seen_at_node2"], info["after_outage_written_at_node2_seen_at_node1"] = seen[2], seen[1]
+            if seen[1] < N or seen[2] < N:
+                out.violation("real-cluster/write-not-visible-on-the-other-node/first-member-back-after-36s-outage-in-an-aged-cluster", dict(info))
+            else:
+                out.shape("real-cluster/first-member-back-after-36s-outage/writes-reach-both-nodes")
     except common.Inconclusive as e:
         info["inconclusive"] = str(e)[:300]
     except OSError as e:
